@@ -13,6 +13,7 @@ import (
 )
 
 var families = map[string]func(*h.Run){
+	"C10": props.C10,
 	"C18": props.C18,
 }
 
